@@ -55,7 +55,7 @@ class TLCResult:
 
 _STATS = re.compile(r"^(\d+) states generated, (\d+) distinct states found")
 _DEPTH = re.compile(r"^The depth of the complete state graph search is (\d+)")
-_COV = re.compile(r"^<(\w+) line \d+, col \d+ to line \d+, col \d+ of module (\w+)>: (\d+):(\d+)")
+_COV = re.compile(r"^<(\w+) line \d+, col \d+ to line \d+, col \d+ of module (\w+)(?: \([\d ]+\))?>: (\d+):(\d+)")
 _INV = re.compile(r"^Error: Invariant (\w+) is violated")
 _PROP = re.compile(r"^Error: (?:Action|Temporal) property (\w+) is violated|^Error: Temporal properties were violated")
 _SIMSTATS = re.compile(r"^The number of states generated: (\d+)")
@@ -191,6 +191,20 @@ def run_tlc(module, cfg, *, scratch, tag, workers=16, env=None, timeout=1800, si
             if "is violated" in line and "ostcondition" in line or "Postcondition" in line and "false" in line.lower():
                 res.postcondition_ok = False
     res.tail = "".join(tail)
+    if p.returncode not in (0, 12, 13):
+        # keep the first error block: it names the failing expression
+        errs = []
+        with open(out_path, "r", encoding="utf-8", errors="replace") as f:
+            grab = 0
+            for line in f:
+                if line.startswith("Error:") or line.startswith("The exception was"):
+                    grab = 8
+                if grab > 0 and not line.startswith('"'):
+                    errs.append(line)
+                    grab -= 1
+                if len(errs) > 40:
+                    break
+        res.tail = "".join(errs) + "\n...\n" + res.tail[-600:]
     shutil.rmtree(metadir, ignore_errors=True)
     ok_codes = {0}
     if allow_violation:
